@@ -102,11 +102,12 @@ def parse_overlay(paths):
                     cur.props = arg.split()
                 elif d == "@raw":
                     cur.raw = True
-                elif d == "@rewrite":
+                elif d in ("@rewrite", "@rewrite?"):
                     m = re.match(r"/(.*)/\s+=>\s+(.*)$", arg)
                     if not m:
                         raise ValueError("bad @rewrite at %s:%d" % (path, ln))
-                    cur.rewrites.append((m.group(1), m.group(2)))
+                    # `@rewrite?` = optional: no lost anchor when the pattern does not occur
+                    cur.rewrites.append((m.group(1), m.group(2)) if d == "@rewrite" else (m.group(1), m.group(2), True))
                 elif d == "@ret":
                     cur.ret = arg.strip()
                 elif d == "@rettype":
